@@ -6,40 +6,408 @@ namespace Pel
 
 /-! ### caches (C19) -/
 
-theorem lookCache_nil {β} (env : Text → β) (n : Text) : lookCache ([] : List (Text × β)) env n = env n := by
-  simp [lookCache]
+theorem cacheGet_nil {β} (n : Text) : cacheGet ([] : Cache β) n = none := rfl
 
-theorem lookCache_cons {β} (m : Text) (v : β) (c : List (Text × β)) (env : Text → β) (n : Text) :
-    lookCache ((m, v) :: c) env n = if m = n then v else lookCache c env n := by
-  unfold lookCache
+theorem cacheGet_cons {β} (m : Text) (v : Option β) (c : Cache β) (n : Text) :
+    cacheGet ((m, v) :: c) n = if m = n then some v else cacheGet c n := by
+  unfold cacheGet
   by_cases h : m = n
   · simp [h]
   · have : (m == n) = false := by simpa using h
     simp [this, h]
 
-theorem storeImports_coherent {β} (env : Text → β) (touched : List Text) (c : List (Text × β))
-    (hc : ∀ n, lookCache c env n = env n) : ∀ n, lookCache (storeImports c env touched) env n = env n := by
-  induction touched generalizing c with
-  | nil => simpa [storeImports] using hc
-  | cons t ts ih =>
-    unfold storeImports
-    rw [List.foldl_cons]
-    apply ih
-    split
-    · exact hc
-    · intro n
-      rw [lookCache_cons]
-      split
-      · rename_i h; rw [h]
-      · exact hc n
+theorem cacheGet_none_not_mem {β} (c : Cache β) (m : Text) (h : cacheGet c m = none) : ∀ v, (m, v) ∉ c := by
+  induction c with
+  | nil => intro v hv; cases hv
+  | cons p c ih =>
+    obtain ⟨k, w⟩ := p
+    rw [cacheGet_cons] at h
+    by_cases hk : k = m
+    · simp [hk] at h
+    · rw [if_neg hk] at h
+      intro v hv
+      rcases List.mem_cons.1 hv with hv | hv
+      · exact hk (by injection hv with h1 _; exact h1.symm)
+      · exact ih h v hv
 
-theorem through_eq_of_coherent (env : Env) (c : Caches) (hc : Coherent env c) : env.through c = env := by
-  obtain ⟨h1, h2, h3⟩ := hc
-  have e1 : lookCache c.ud env.ud = env.ud := funext h1
-  have e2 : lookCache c.src env.src.src = env.src.src := funext h2
-  have e3 : lookCache c.callout env.src.callout = env.src.callout := funext h3
-  unfold Env.through
-  rw [e1, e2, e3]
+theorem cacheGet_none_not_key {β} (c : Cache β) (m : Text) (h : cacheGet c m = none) : m ∉ c.map (·.1) := by
+  intro hm
+  obtain ⟨p, hp, rfl⟩ := List.mem_map.1 hm
+  exact cacheGet_none_not_mem c p.1 h p.2 hp
+
+/-- what a look-up hands on, as a function of the table: `hit` for a stored value, `miss` for a name that is not a key -/
+def seenVia {β γ} (hit : Option β → γ) (miss : Text → γ) (c : Cache β) (n : Text) : γ :=
+  match cacheGet c n with
+  | some w => hit w
+  | none => miss n
+
+theorem seenVia_nil {β γ} (hit : Option β → γ) (miss : Text → γ) (n : Text) : seenVia hit miss [] n = miss n := rfl
+
+/-- storing, under a name that is not a key, a value that is shown as the import is shown changes nothing any look-up sees -/
+theorem seenVia_cons_stable {β γ} (hit : Option β → γ) (miss : Text → γ) (c : Cache β) (m : Text) (v : Option β)
+    (hnone : cacheGet c m = none) (hv : hit v = miss m) (n : Text) :
+    seenVia hit miss ((m, v) :: c) n = seenVia hit miss c n := by
+  unfold seenVia
+  rw [cacheGet_cons]
+  by_cases h : m = n
+  · subst h
+    simp [hnone, hv]
+  · simp [h]
+
+/-! the four sites: what is handed on (`_fst`), and what happens to the table (`_snd`) -/
+
+def udHit (w : Option UdPlugin) : UdPlugin := w.getD .absent
+
+theorem udLookup_fst (env : ProcEnv) (c : Cache UdPlugin) (n : Text) :
+    (udLookup env c n).1 = seenVia udHit env.ud c n := by
+  unfold udLookup seenVia udHit
+  cases cacheGet c n with
+  | none => cases h : env.ud n <;> simp
+  | some v => cases v <;> rfl
+
+theorem udEntryOk_hit (env : ProcEnv) (n : Text) (v : Option UdPlugin) (h : UdEntryOk env n v) : udHit v = env.ud n := by
+  cases v with
+  | none => exact h.symm
+  | some b => exact h.1.symm
+
+theorem udLookup_snd (env : ProcEnv) (c : Cache UdPlugin) (m : Text) :
+    (udLookup env c m).2 = c ∨
+    (cacheGet c m = none ∧ ∃ v, (udLookup env c m).2 = (m, v) :: c ∧ UdEntryOk env m v) := by
+  unfold udLookup
+  cases hg : cacheGet c m with
+  | some v => cases v <;> exact .inl rfl
+  | none =>
+    cases he : env.ud m with
+    | absent => exact .inr ⟨rfl, none, rfl, he⟩
+    | importRaises msg => exact .inl rfl
+    | echo => exact .inr ⟨rfl, some _, rfl, he, by simp, by simp⟩
+    | raises msg => exact .inr ⟨rfl, some _, rfl, he, by simp, by simp⟩
+    | returnsNone => exact .inr ⟨rfl, some _, rfl, he, by simp, by simp⟩
+    | returnsText t => exact .inr ⟨rfl, some _, rfl, he, by simp, by simp⟩
+
+def impOpt {β} : Imp β → Option β
+  | .module b => some b
+  | .failed _ => none
+
+theorem srcLookup_fst (env : ProcEnv) (c : Cache SrcMod) (n : Text) :
+    (srcLookup env c n).1 = seenVia id (fun n => impOpt (env.srcSiteImport n)) c n := by
+  unfold srcLookup seenVia
+  cases cacheGet c n with
+  | none => cases h : env.srcSiteImport n <;> simp [impOpt, h]
+  | some v => rfl
+
+theorem srcEntryOk_hit (env : ProcEnv) (n : Text) (v : Option SrcMod) (h : SrcEntryOk env n v) :
+    v = impOpt (env.srcSiteImport n) := by
+  cases v with
+  | none => obtain ⟨f, hf⟩ := h; rw [hf]; rfl
+  | some b => unfold SrcEntryOk at h; rw [h]; rfl
+
+theorem srcLookup_snd (env : ProcEnv) (c : Cache SrcMod) (m : Text) :
+    (srcLookup env c m).2 = c ∨
+    (cacheGet c m = none ∧ ∃ v, (srcLookup env c m).2 = (m, v) :: c ∧ SrcEntryOk env m v) := by
+  unfold srcLookup
+  cases hg : cacheGet c m with
+  | some v => exact .inl rfl
+  | none =>
+    cases he : env.srcSiteImport m with
+    | failed f => exact .inr ⟨rfl, none, rfl, f, he⟩
+    | module b => exact .inr ⟨rfl, some b, rfl, he⟩
+
+theorem calloutLookup_fst (env : ProcEnv) (c : Cache CalloutPlugin) (n : Text) :
+    (calloutLookup env c n).1 = seenVia id (fun n => impOpt (env.calloutImport n)) c n := by
+  unfold calloutLookup seenVia
+  cases cacheGet c n with
+  | none => cases h : env.calloutImport n <;> simp [impOpt, h]
+  | some v => rfl
+
+theorem calloutEntryOk_hit (env : ProcEnv) (n : Text) (v : Option CalloutPlugin) (h : CalloutEntryOk env n v) :
+    v = impOpt (env.calloutImport n) := by
+  cases v with
+  | none => obtain ⟨f, hf⟩ := h; rw [hf]; rfl
+  | some b => unfold CalloutEntryOk at h; rw [h]; rfl
+
+theorem calloutLookup_snd (env : ProcEnv) (c : Cache CalloutPlugin) (m : Text) :
+    (calloutLookup env c m).2 = c ∨
+    (cacheGet c m = none ∧ ∃ v, (calloutLookup env c m).2 = (m, v) :: c ∧ CalloutEntryOk env m v) := by
+  unfold calloutLookup
+  cases hg : cacheGet c m with
+  | some v => exact .inl rfl
+  | none =>
+    cases he : env.calloutImport m with
+    | failed f => exact .inr ⟨rfl, none, rfl, f, he⟩
+    | module b => exact .inr ⟨rfl, some b, rfl, he⟩
+
+def osrcHit : Option SrcPlugin → Got SrcPlugin
+  | none => .none
+  | some b => .module b
+
+/-- a fresh look-up by the wrapper -/
+def osrcMiss (env : ProcEnv) (n : Text) : Got SrcPlugin :=
+  match env.srcImport n with
+  | .module b => .module b
+  | .failed .notFound => .none
+  | .failed _ => .raised
+
+theorem osrcLookup_fst (env : ProcEnv) (c : Cache SrcPlugin) (n : Text) :
+    (osrcLookup env c n).1 = seenVia osrcHit (osrcMiss env) c n := by
+  unfold osrcLookup seenVia osrcHit osrcMiss
+  cases cacheGet c n with
+  | none =>
+    cases env.srcImport n with
+    | module b => rfl
+    | failed f => cases f <;> rfl
+  | some v => cases v <;> rfl
+
+theorem osrcEntryOk_hit (env : ProcEnv) (n : Text) (v : Option SrcPlugin) (h : OsrcEntryOk env n v) :
+    osrcHit v = osrcMiss env n := by
+  cases v with
+  | none => unfold OsrcEntryOk at h; unfold osrcMiss; rw [h]; rfl
+  | some b => unfold OsrcEntryOk at h; unfold osrcMiss; rw [h]; rfl
+
+theorem osrcLookup_snd (env : ProcEnv) (c : Cache SrcPlugin) (m : Text) :
+    (osrcLookup env c m).2 = c ∨
+    (cacheGet c m = none ∧ ∃ v, (osrcLookup env c m).2 = (m, v) :: c ∧ OsrcEntryOk env m v) := by
+  unfold osrcLookup
+  cases hg : cacheGet c m with
+  | some v => cases v <;> exact .inl rfl
+  | none =>
+    cases he : env.srcImport m with
+    | module b => exact .inr ⟨rfl, some b, rfl, he⟩
+    | failed f =>
+      cases f with
+      | notFound => exact .inr ⟨rfl, none, rfl, he⟩
+      | importError => exact .inl rfl
+      | other => exact .inl rfl
+
+/-! stability: a look-up never changes what any later look-up hands on (for ANY table, coherent or not) -/
+
+theorem udLookup_stable (env : ProcEnv) (c : Cache UdPlugin) (m n : Text) :
+    (udLookup env (udLookup env c m).2 n).1 = (udLookup env c n).1 := by
+  rcases udLookup_snd env c m with h | ⟨hn, v, h, hv⟩
+  · rw [h]
+  · rw [h, udLookup_fst, udLookup_fst]
+    exact seenVia_cons_stable _ _ c m v hn (udEntryOk_hit env m v hv) n
+
+theorem srcLookup_stable (env : ProcEnv) (c : Cache SrcMod) (m n : Text) :
+    (srcLookup env (srcLookup env c m).2 n).1 = (srcLookup env c n).1 := by
+  rcases srcLookup_snd env c m with h | ⟨hn, v, h, hv⟩
+  · rw [h]
+  · rw [h, srcLookup_fst, srcLookup_fst]
+    exact seenVia_cons_stable _ _ c m v hn (srcEntryOk_hit env m v hv) n
+
+theorem calloutLookup_stable (env : ProcEnv) (c : Cache CalloutPlugin) (m n : Text) :
+    (calloutLookup env (calloutLookup env c m).2 n).1 = (calloutLookup env c n).1 := by
+  rcases calloutLookup_snd env c m with h | ⟨hn, v, h, hv⟩
+  · rw [h]
+  · rw [h, calloutLookup_fst, calloutLookup_fst]
+    exact seenVia_cons_stable _ _ c m v hn (calloutEntryOk_hit env m v hv) n
+
+theorem osrcLookup_stable (env : ProcEnv) (c : Cache SrcPlugin) (m n : Text) :
+    (osrcLookup env (osrcLookup env c m).2 n).1 = (osrcLookup env c n).1 := by
+  rcases osrcLookup_snd env c m with h | ⟨hn, v, h, hv⟩
+  · rw [h]
+  · rw [h, osrcLookup_fst, osrcLookup_fst]
+    exact seenVia_cons_stable _ _ c m v hn (osrcEntryOk_hit env m v hv) n
+
+theorem compIdLookup_idem (dir : Option ConfDir) (st : CompIdState) :
+    compIdLookup dir (compIdLookup dir st).2 = compIdLookup dir st := by
+  unfold compIdLookup
+  by_cases he : st.table.isEmpty = true
+  · simp only [he, if_true]
+    unfold loadAllCompIds
+    by_cases ha : st.attempted = true
+    · simp [ha, he]
+    · cases dir with
+      | none => simp [ha, he]
+      | some files => simp [ha]
+  · simp [he]
+
+theorem compIdLookup_fst (dir : Option ConfDir) (st : CompIdState) :
+    (compIdLookup dir st).1 = (compIdLookup dir st).2.table := rfl
+
+theorem compIdLookup_nil (dir : Option ConfDir) : (compIdLookup dir {}).1 = loadConf dir := by
+  cases dir <;> rfl
+
+/-- the whole state: what every site hands on -/
+structure SameView (env : ProcEnv) (c c' : Caches) : Prop where
+  ud : ∀ n, (udLookup env c'.ud n).1 = (udLookup env c.ud n).1
+  src : ∀ n, (srcLookup env c'.src n).1 = (srcLookup env c.src n).1
+  callout : ∀ n, (calloutLookup env c'.callout n).1 = (calloutLookup env c.callout n).1
+  osrc : ∀ n, (osrcLookup env c'.osrc n).1 = (osrcLookup env c.osrc n).1
+  comp : (compIdLookup env.confDir c'.comp).1 = (compIdLookup env.confDir c.comp).1
+
+theorem SameView.refl (env : ProcEnv) (c : Caches) : SameView env c c :=
+  ⟨fun _ => rfl, fun _ => rfl, fun _ => rfl, fun _ => rfl, rfl⟩
+
+theorem SameView.trans {env : ProcEnv} {a b c : Caches} (h1 : SameView env a b) (h2 : SameView env b c) : SameView env a c :=
+  ⟨fun n => (h2.ud n).trans (h1.ud n), fun n => (h2.src n).trans (h1.src n), fun n => (h2.callout n).trans (h1.callout n),
+   fun n => (h2.osrc n).trans (h1.osrc n), h2.comp.trans h1.comp⟩
+
+theorem stepLookup_sameView (env : ProcEnv) (c : Caches) (l : Lookup) : SameView env c (stepLookup env c l) := by
+  cases l with
+  | ud m => exact ⟨fun n => udLookup_stable env c.ud m n, fun _ => rfl, fun _ => rfl, fun _ => rfl, rfl⟩
+  | src m => exact ⟨fun _ => rfl, fun n => srcLookup_stable env c.src m n, fun _ => rfl, fun _ => rfl, rfl⟩
+  | callout m => exact ⟨fun _ => rfl, fun _ => rfl, fun n => calloutLookup_stable env c.callout m n, fun _ => rfl, rfl⟩
+  | osrc m => exact ⟨fun _ => rfl, fun _ => rfl, fun _ => rfl, fun n => osrcLookup_stable env c.osrc m n, rfl⟩
+  | compId =>
+    refine ⟨fun _ => rfl, fun _ => rfl, fun _ => rfl, fun _ => rfl, ?_⟩
+    show (compIdLookup env.confDir (compIdLookup env.confDir c.comp).2).1 = _
+    rw [compIdLookup_idem]
+
+theorem stepCaches_sameView (env : ProcEnv) (ls : List Lookup) (c : Caches) : SameView env c (stepCaches env c ls) := by
+  induction ls generalizing c with
+  | nil => exact SameView.refl env c
+  | cons l ls ih =>
+    unfold stepCaches
+    rw [List.foldl_cons]
+    exact (stepLookup_sameView env c l).trans (ih _)
+
+theorem Coherent.of_sameView {env : ProcEnv} {c c' : Caches} (hc : Coherent env c) (h : SameView env c c') : Coherent env c' :=
+  ⟨fun n => (h.ud n).trans (hc.1 n), fun n => (h.src n).trans (hc.2.1 n), fun n => (h.callout n).trans (hc.2.2.1 n),
+   fun n => (h.osrc n).trans (hc.2.2.2.1 n), h.comp.trans hc.2.2.2.2⟩
+
+/-! the strong invariant behind `cache_contents` -/
+
+structure Exact (env : ProcEnv) (c : Caches) : Prop where
+  ud : ∀ n v, (n, v) ∈ c.ud → UdEntryOk env n v
+  src : ∀ n v, (n, v) ∈ c.src → SrcEntryOk env n v
+  callout : ∀ n v, (n, v) ∈ c.callout → CalloutEntryOk env n v
+  osrc : ∀ n v, (n, v) ∈ c.osrc → OsrcEntryOk env n v
+  comp : CompStateOk env c.comp
+  udKeys : (c.ud.map (·.1)).Nodup
+  srcKeys : (c.src.map (·.1)).Nodup
+  calloutKeys : (c.callout.map (·.1)).Nodup
+  osrcKeys : (c.osrc.map (·.1)).Nodup
+
+theorem Exact.init (env : ProcEnv) : Exact env {} where
+  ud := fun _ _ h => nomatch h
+  src := fun _ _ h => nomatch h
+  callout := fun _ _ h => nomatch h
+  osrc := fun _ _ h => nomatch h
+  comp := Or.inl ⟨rfl, rfl⟩
+  udKeys := List.nodup_nil
+  srcKeys := List.nodup_nil
+  calloutKeys := List.nodup_nil
+  osrcKeys := List.nodup_nil
+
+theorem entries_step {β} {P : Text → Option β → Prop} {c c' : Cache β} {m : Text}
+    (hc : ∀ n v, (n, v) ∈ c → P n v) (hk : (c.map (·.1)).Nodup)
+    (h : c' = c ∨ (cacheGet c m = none ∧ ∃ v, c' = (m, v) :: c ∧ P m v)) :
+    (∀ n v, (n, v) ∈ c' → P n v) ∧ (c'.map (·.1)).Nodup := by
+  rcases h with h | ⟨hn, v, h, hv⟩
+  · subst h; exact ⟨hc, hk⟩
+  · subst h
+    refine ⟨?_, ?_⟩
+    · intro n w hw
+      rcases List.mem_cons.1 hw with hw | hw
+      · injection hw with h1 h2; subst h1; subst h2; exact hv
+      · exact hc n w hw
+    · rw [List.map_cons, List.nodup_cons]
+      exact ⟨cacheGet_none_not_key c m hn, hk⟩
+
+theorem compStateOk_step (env : ProcEnv) (st : CompIdState) (h : CompStateOk env st) :
+    CompStateOk env (compIdLookup env.confDir st).2 := by
+  unfold compIdLookup
+  rcases h with ⟨ha, ht⟩ | ⟨ha, ht⟩
+  · simp only [ht, List.isEmpty_nil, if_true]
+    unfold loadAllCompIds
+    simp only [ha, Bool.false_eq_true, if_false]
+    cases hd : env.confDir with
+    | none => exact .inr ⟨rfl, by simp [loadConf, hd, ht]⟩
+    | some files => exact .inr ⟨rfl, by simp [loadConf, hd, ht]⟩
+  · by_cases he : st.table.isEmpty = true
+    · simp only [he, if_true]
+      unfold loadAllCompIds
+      simp only [ha, if_true]
+      exact .inr ⟨ha, ht⟩
+    · simp only [he]
+      exact .inr ⟨ha, ht⟩
+
+theorem Exact.step (env : ProcEnv) (c : Caches) (l : Lookup) (h : Exact env c) : Exact env (stepLookup env c l) := by
+  cases l with
+  | ud m =>
+    obtain ⟨h1, h2⟩ := entries_step (P := UdEntryOk env) h.ud h.udKeys (udLookup_snd env c.ud m)
+    exact { h with ud := h1, udKeys := h2 }
+  | src m =>
+    obtain ⟨h1, h2⟩ := entries_step (P := SrcEntryOk env) h.src h.srcKeys (srcLookup_snd env c.src m)
+    exact { h with src := h1, srcKeys := h2 }
+  | callout m =>
+    obtain ⟨h1, h2⟩ := entries_step (P := CalloutEntryOk env) h.callout h.calloutKeys (calloutLookup_snd env c.callout m)
+    exact { h with callout := h1, calloutKeys := h2 }
+  | osrc m =>
+    obtain ⟨h1, h2⟩ := entries_step (P := OsrcEntryOk env) h.osrc h.osrcKeys (osrcLookup_snd env c.osrc m)
+    exact { h with osrc := h1, osrcKeys := h2 }
+  | compId => exact { h with comp := compStateOk_step env c.comp h.comp }
+
+theorem Exact.steps (env : ProcEnv) (ls : List Lookup) (c : Caches) (h : Exact env c) : Exact env (stepCaches env c ls) := by
+  induction ls generalizing c with
+  | nil => exact h
+  | cons l ls ih =>
+    unfold stepCaches
+    rw [List.foldl_cons]
+    exact ih _ (h.step env c l)
+
+/-! coherent tables show the fresh environment -/
+
+theorem srcImport_module (env : ProcEnv) (n : Text) (b : SrcPlugin) (h : env.srcImport n = .module b) : env.src.src n = b := by
+  unfold ProcEnv.srcImport at h
+  cases he : env.src.src n <;> rw [he] at h <;> simp at h <;> exact h
+
+theorem srcImport_failed (env : ProcEnv) (n : Text) (f : Fault) (h : env.srcImport n = .failed f) : env.src.src n = .absent := by
+  unfold ProcEnv.srcImport at h
+  cases he : env.src.src n <;> rw [he] at h <;> simp at h
+
+theorem calloutImport_module (env : ProcEnv) (n : Text) (b : CalloutPlugin) (h : env.calloutImport n = .module b) :
+    env.src.callout n = b := by
+  unfold ProcEnv.calloutImport at h
+  cases he : env.src.callout n <;> rw [he] at h <;> simp at h <;> exact h
+
+theorem calloutImport_failed (env : ProcEnv) (n : Text) (f : Fault) (h : env.calloutImport n = .failed f) :
+    env.src.callout n = .absent := by
+  unfold ProcEnv.calloutImport at h
+  cases he : env.src.callout n <;> rw [he] at h <;> simp at h
+
+theorem udLookup_nil (env : ProcEnv) (n : Text) : (udLookup env [] n).1 = env.ud n := by
+  rw [udLookup_fst]; rfl
+
+theorem seenCallout_of_coherent (env : ProcEnv) (c : Caches) (hc : Coherent env c) (n : Text) :
+    seenCallout env c n = env.src.callout n := by
+  unfold seenCallout
+  rw [hc.2.2.1 n, calloutLookup_fst, seenVia_nil]
+  cases h : env.calloutImport n with
+  | failed f => exact (calloutImport_failed env n f h).symm
+  | module b => exact (calloutImport_module env n b h).symm
+
+theorem seenSrc_of_coherent (env : ProcEnv) (c : Caches) (hc : Coherent env c) (n : Text) :
+    seenSrc env c n = env.src.src n := by
+  unfold seenSrc
+  by_cases h0 : n = s "osrc"
+  · simp [h0]
+  · rw [if_neg h0]
+    by_cases h1 : isComponentName n = true
+    · rw [if_pos h1, hc.2.1 (s "osrc"), srcLookup_fst, seenVia_nil]
+      have hw : impOpt (env.srcSiteImport (s "osrc")) = some .osrcWrapper := by
+        unfold ProcEnv.srcSiteImport; simp [impOpt]
+      simp only [hw]
+      rw [hc.2.2.2.1 n, osrcLookup_fst, seenVia_nil]
+      unfold osrcMiss
+      cases h : env.srcImport n with
+      | module b => exact (srcImport_module env n b h).symm
+      | failed f => cases f <;> exact (srcImport_failed env n _ h).symm
+    · rw [if_neg h1, hc.2.1 n, srcLookup_fst, seenVia_nil]
+      unfold ProcEnv.srcSiteImport
+      rw [if_neg h0]
+      cases h : env.srcImport n with
+      | module b => exact (srcImport_module env n b h).symm
+      | failed f => exact (srcImport_failed env n f h).symm
+
+theorem through_eq_of_coherent (env : ProcEnv) (c : Caches) (hc : Coherent env c) : env.through c = env.fresh := by
+  have e1 : (fun n => (udLookup env c.ud n).1) = env.ud := funext fun n => (hc.1 n).trans (udLookup_nil env n)
+  have e2 : seenSrc env c = env.src.src := funext (seenSrc_of_coherent env c hc)
+  have e3 : seenCallout env c = env.src.callout := funext (seenCallout_of_coherent env c hc)
+  have e4 : (compIdLookup env.confDir c.comp).1 = loadConf env.confDir := hc.2.2.2.2.trans (compIdLookup_nil _)
+  unfold ProcEnv.through ProcEnv.fresh
+  rw [e1, e2, e3, e4]
 
 /-! ### module names (C18) -/
 
